@@ -64,18 +64,7 @@ def r_visitor(root):
         ob("C22", "C22.e", L, "TextXVisitor.visit_textx_rule", " ".join(ast.unparse(c).split())[:90], okc)
         if not okc:
             out.append(Finding("C22", "C22.e", L, "TextXVisitor.visit_textx_rule", " ".join(ast.unparse(c).split())[:100], "this wrapper becomes the rule's root expression but does not receive the rule parameters: noskipws / skipws / ws given on the rule are silently ignored", witness="Path[noskipws]: segs+=ID['/'];"))
-    # ---------------- C22.f
-    consts = set()
-    for n in own_nodes(vp):
-        if isinstance(n, ast.If) and "ws" in ast.unparse(n.test) and "\\\\" in ast.unparse(n.test):
-            consts |= {x.value for x in ast.walk(n) if isinstance(x, ast.Constant) and isinstance(x.value, str)}
-    need = {"\\n": "\n", "\\r": "\r", "\\t": "\t"}
-    inst += 1
-    if not consts: raise AnalysisError("visit_rule_params: ws escape translation not found")
-    miss = [k for k, v in need.items() if k not in consts or v not in consts]
-    ob("C22", "C22.f", L, "TextXVisitor.visit_rule_params", "ws escape table %s" % sorted(c for c in consts if len(c) <= 2), not miss)
-    for k in miss:
-        out.append(Finding("C22", "C22.f", L, "TextXVisitor.visit_rule_params", "ws escape " + k, "the ws rule parameter no longer translates %s: that character silently drops out of the rule's whitespace set" % k, witness="Rule[ws='\\r\\n']: ..."))
+    # (C22.f, the syntactic escape-table check, was replaced by C22.h: the ws translation is decided by evaluation in r_rule_params_eval)
     # ---------------- C22.g
     rr = find(t, "TextXVisitor._resolve_rule_refs"); vm = find(t, "TextXVisitor.visit_textx_model"); inst += 1
     early = any(isinstance(x, ast.Attribute) and x.attr == "_tx_peg_rule" for x in ast.walk(vm))
